@@ -65,7 +65,19 @@ def _run_task(task):
     else:
         rng = random.Random(task["seed"])
         sc = lens.gen(rng, _TIER, _QUAR)
-    res = lens.run(sc)
+    try:
+        res = lens.run(sc)
+    finally:
+        if sc.get("program") is not None:
+            # generated program: its three twin files live only for this run
+            from . import harness
+
+            for variant in harness.VARIANTS:
+                fp = os.path.join(harness.scratch_dir(), harness.module_name(sc["prog_name"], variant) + ".py")
+                try:
+                    os.unlink(fp)
+                except OSError:
+                    pass
     res["scenario"] = sc
     res["digest"] = world.digest(
         [sc, [v[0] for v in res["viol"]], [h[0] for h in res["herr"]], res["sig"], res["events"],
